@@ -252,7 +252,7 @@ class DiscExecute(_Wrapper):
     targets = (DPE + ".execute",)
     returns = TList(TVal)
     modifies = CP.EXEC_GHOSTS + ("ghost:c13d_data", "ghost:c13d_nexec")
-    loops = {0: LoopSpec(anchor="zip(self._disciplines, ordered_outputs)", inv=inv_writeback, modifies=("ghost:c13d_data",),
+    loops = {0: LoopSpec(anchor=None, inv=inv_writeback, modifies=("ghost:c13d_data",),
                          local_types={"disc": D.TDisc, "output": TVal})}
     raises = {**_Wrapper.raises,
               "IndexError": lambda c: z3.And(discs(c).n == 0, CP.n_tasks(c) != 0, spawn_counted(c))}
@@ -338,6 +338,12 @@ def inv_writeback_lin(c, k):
     return written_back(c, k, maps, [D.wd_io, D.wd_jac]) + lastw_distinct(c, k)
 
 
+def _bound(c, name):
+    from pyvc.values import UNBOUND
+
+    return c.locals.get(name, UNBOUND) is not UNBOUND
+
+
 def some_task_fails(c):
     i = z3.Int("i!sf")
     return z3.Exists([i], z3.And(0 <= i, i < CP.n_tasks(c), z3.Not(CP.succeeds(c, i))))
@@ -353,11 +359,12 @@ class LinExecute(_Wrapper):
     returns = TList(TVal)
     c13d_truth = True
     modifies = CP.EXEC_GHOSTS + ("ghost:c13d_data", "ghost:c13d_jac", "ghost:c13d_nexec", "ghost:c13d_nlin")
-    loops = {0: LoopSpec(anchor="zip(self._disciplines, ordered_outputs)", inv=inv_writeback_lin, modifies=("ghost:c13d_data", "ghost:c13d_jac"),
+    loops = {0: LoopSpec(anchor=None, inv=inv_writeback_lin, modifies=("ghost:c13d_data", "ghost:c13d_jac"),
                          local_types={"disc": D.TDisc, "output": TVal})}
     raises = {**_Wrapper.raises,
-              # ordered_outputs[0] of an empty list (one discipline or mismatching lengths, no input)
-              "IndexError": lambda c: z3.And(z3.Not(one_per_task(c)), z3.Or(CP.n_tasks(c) == 0, discs(c).n == 0))}
+              # ordered_outputs[0] of an empty list (one discipline or mismatching lengths, no input); without any discipline every task fails and
+              # self._disciplines[0] is not reached
+              "IndexError": lambda c: z3.And(z3.Not(one_per_task(c)), CP.n_tasks(c) == 0)}
 
     def requires(self, c):
         return self._requires(c) + workers_are(c, lambda d: D.functor_of(d, LIN_EXECUTE))
@@ -382,7 +389,15 @@ class LinExecute(_Wrapper):
         ok0 = CP.succeeds(c, 0)
         single = L.n == 1
         thr = c.old.self.use_threading
-        out = result_positional(c, c.result, D.wd_jac)
+        # the positional-result clause, split at the known finding (failed tasks are dropped from the returned list): proved whenever no task
+        # fails; the residual `with failed tasks` is the finding (known_findings.json) - it is generated on the paths of the write-back loop
+        # only (the return statement is the same on every path; the residual cannot be decided by the solvers and costs a time-out per path)
+        fails = some_task_fails(c)
+        pos = result_positional(c, c.result, D.wd_jac)
+        out = [(l, z3.Implies(z3.Not(fails), f)) for l, f in pos]
+        if _bound(c, "disc") or not _bound(c, "output_0"):
+            # (stated without the guard: the check proves it outside the finding's region; a proved-false-looking guard would only slow later proofs down)
+            out.append(("result:failed-tasks-keep-their-slot", z3.And(*[f for _, f in pos])))
         out += final_state(c, maps, projs)
         out += positional_write_back(c, maps, projs)
         out += [(l, z3.Implies(one_per_task(c), f)) for l, f in lastw_facts(c, n)]
